@@ -1,7 +1,355 @@
-/-  C15/Driver — line protocol front end (core-only).  Placeholder until the property is built. -/
-import OttoVerif.Base.Proto
-namespace OttoVerif.C15.Driver
+/-
+  C15/Driver — line protocol front end (core-only).
+  request:  go <op> <GoVal>  |  js <op> <JS>  |  call <path> <this> <nargs>      reply:  <model> <spec> <dev>
 
-def handle (_ws : List String) : String := "bad-op"
+  GoVal ::= nil | b:0|1 | <kind>:<int> | f32:<16hex> | f64:<16hex> | s:<hex bytes>      (kind = i8..u64,int,uint)
+          | N(<scalar>)                 a defined type over the same basic type
+          | P(<GoVal>) | Z(<GT>)        pointer / nil pointer of type *GT
+          | L(<GT>,<0|1 nil>{,<GoVal>}) | M(<GT>,<0|1>{,<hexkey>,<GoVal>}) | S(<id>{,<hexkey>,<GoVal>})
+  GT    ::= I | b | <kind> | f32 | f64 | s | N(<basic>) | L(<GT>) | M(<GT>) | P(<GT>) | S(<id>)
+  JS    ::= u | n | <scalar as above> | G(<GoVal>)  (what Set stores for it) | A({<JS>|H,}) | O({<hexkey>,<JS>,})
+  Maps are printed with keys sorted (Go map order never reaches a token).
+-/
+import OttoVerif.Base.Proto
+import OttoVerif.Base.ParseNumber
+import OttoVerif.C15.Spec
+namespace OttoVerif.C15.Driver
+open OttoVerif.F64 OttoVerif.Proto OttoVerif.C15
+open OttoVerif.C05 (NK Val Env)
+
+def env : Env := { pn := OttoVerif.PN.parseNumber }
+
+/-! ### tokenizer -/
+
+def isPunct (c : Char) : Bool := c = '(' || c = ')' || c = ','
+
+def lexAux : List Char → List Char → List String → List String
+  | [], cur, acc => (if cur.isEmpty then acc else String.ofList cur.reverse :: acc).reverse
+  | c :: r, cur, acc =>
+    if isPunct c then
+      let acc := if cur.isEmpty then acc else String.ofList cur.reverse :: acc
+      lexAux r [] (String.singleton c :: acc)
+    else lexAux r (c :: cur) acc
+
+def lex (s : String) : List String := lexAux s.toList [] []
+
+/-! ### parsers (fuel = number of tokens) -/
+
+def nk? : String → Option NK
+  | "i8" => some .i8 | "i16" => some .i16 | "i32" => some .i32 | "i64" => some .i64 | "int" => some .int
+  | "u8" => some .u8 | "u16" => some .u16 | "u32" => some .u32 | "u64" => some .u64 | "uint" => some .uint
+  | _ => none
+
+def nkOut : NK → String
+  | .i8 => "i8" | .i16 => "i16" | .i32 => "i32" | .i64 => "i64" | .int => "int"
+  | .u8 => "u8" | .u16 => "u16" | .u32 => "u32" | .u64 => "u64" | .uint => "uint"
+
+def bt? (s : String) : Option BT :=
+  match s with
+  | "b" => some .bool | "f32" => some .f32 | "f64" => some .f64 | "s" => some .str
+  | _ => (nk? s).map .num
+
+def btOut : BT → String
+  | .bool => "b" | .f32 => "f32" | .f64 => "f64" | .str => "s" | .num k => nkOut k
+
+def sc? (t : String) : Option Sc :=
+  match t.splitOn ":" with
+  | ["b", "0"] => some (.bool false)
+  | ["b", "1"] => some (.bool true)
+  | ["f32", h] => (f64? h).map .f32
+  | ["f64", h] => (f64? h).map .f64
+  | ["s", h] => (bytes? h).map .str
+  | [k, i] => do let k ← nk? k; let i ← int? i; pure (.int k i)
+  | _ => none
+
+def parseT : Nat → List String → Option (GT × List String)
+  | 0, _ => none
+  | _ + 1, "I" :: r => some (.iface, r)
+  | _ + 1, "N" :: "(" :: a :: ")" :: r => (bt? a).map fun b => (.sc true b, r)
+  | f + 1, "L" :: "(" :: r => match parseT f r with
+    | some (t, ")" :: r) => some (.slice t, r)
+    | _ => none
+  | f + 1, "M" :: "(" :: r => match parseT f r with
+    | some (t, ")" :: r) => some (.map t, r)
+    | _ => none
+  | f + 1, "P" :: "(" :: r => match parseT f r with
+    | some (t, ")" :: r) => some (.ptr t, r)
+    | _ => none
+  | _ + 1, "S" :: "(" :: a :: ")" :: r => a.toNat?.map fun n => (.strct n, r)
+  | _ + 1, a :: r => (bt? a).map fun b => (.sc false b, r)
+  | _ + 1, [] => none
+
+mutual
+def parseG : Nat → List String → Option (GoVal × List String)
+  | 0, _ => none
+  | _ + 1, "nil" :: r => some (.nil, r)
+  | _ + 1, "N" :: "(" :: a :: ")" :: r => (sc? a).map fun s => (.sc true s, r)
+  | f + 1, "P" :: "(" :: r => match parseG f r with
+    | some (g, ")" :: r) => some (.ptr g, r)
+    | _ => none
+  | f + 1, "Z" :: "(" :: r => match parseT f r with
+    | some (t, ")" :: r) => some (.nilptr t, r)
+    | _ => none
+  | f + 1, "L" :: "(" :: r => match parseT f r with
+    | some (t, "," :: n :: r) => match parseGs f r with
+      | some (es, r) => some (.slice t (n == "1") es, r)
+      | none => none
+    | _ => none
+  | f + 1, "M" :: "(" :: r => match parseT f r with
+    | some (t, "," :: n :: r) => match parseKVs f r with
+      | some (kvs, r) => some (.map t (n == "1") kvs, r)
+      | none => none
+    | _ => none
+  | f + 1, "S" :: "(" :: a :: r => match a.toNat?, parseKVs f r with
+    | some id, some (kvs, r) => some (.strct id kvs, r)
+    | _, _ => none
+  | _ + 1, a :: r => (sc? a).map fun s => (.sc false s, r)
+  | _ + 1, [] => none
+/-- `{,<GoVal>}` up to the closing parenthesis -/
+def parseGs : Nat → List String → Option (GoVals × List String)
+  | 0, _ => none
+  | _ + 1, ")" :: r => some (.nil, r)
+  | f + 1, "," :: r => match parseG f r with
+    | some (g, r) => match parseGs f r with
+      | some (gs, r) => some (.cons g gs, r)
+      | none => none
+    | none => none
+  | _ + 1, _ => none
+def parseKVs : Nat → List String → Option (GoKVs × List String)
+  | 0, _ => none
+  | _ + 1, ")" :: r => some (.nil, r)
+  | f + 1, "," :: k :: "," :: r => match bytes? k, parseG f r with
+    | some k, some (g, r) => match parseKVs f r with
+      | some (kvs, r) => some (.cons k g kvs, r)
+      | none => none
+    | _, _ => none
+  | _ + 1, _ => none
+end
+
+def goVal? (s : String) : Option GoVal :=
+  let ts := lex s
+  match parseG (ts.length + 1) ts with
+  | some (g, []) => some g
+  | _ => none
+
+def prim? (t : String) : Option Val :=
+  if t = "u" then some .undef
+  else if t = "n" then some .null
+  else match sc? t with
+    | some (.bool b) => some (.bool b)
+    | some (.int k i) => some (.int k i)
+    | some (.f64 x) => some (.f64 x)
+    | some (.str s) => some (.str s)
+    | _ => none
+
+mutual
+def parseJ : Nat → List String → Option (JS × List String)
+  | 0, _ => none
+  | f + 1, "G" :: "(" :: r => match parseG f r with
+    | some (g, ")" :: r) => match toValue g with
+      | .ok j => some (j, r)
+      | _ => none
+    | _ => none
+  | f + 1, "A" :: "(" :: r => match parseJs f r with
+    | some (es, r) => some (.arr es, r)
+    | none => none
+  | f + 1, "O" :: "(" :: r => match parseJProps f r with
+    | some (ps, r) => some (.obj ps, r)
+    | none => none
+  | _ + 1, a :: r => (prim? a).map fun v => (.prim v, r)
+  | _ + 1, [] => none
+/-- `{<JS>|H ,}` up to the closing parenthesis (every element is followed by a comma) -/
+def parseJs : Nat → List String → Option (JSElems × List String)
+  | 0, _ => none
+  | _ + 1, ")" :: r => some (.nil, r)
+  | f + 1, "H" :: "," :: r => match parseJs f r with
+    | some (es, r) => some (.hole es, r)
+    | none => none
+  | f + 1, r => match parseJ f r with
+    | some (v, "," :: r) => match parseJs f r with
+      | some (es, r) => some (.cons v es, r)
+      | none => none
+    | _ => none
+def parseJProps : Nat → List String → Option (JSProps × List String)
+  | 0, _ => none
+  | _ + 1, ")" :: r => some (.nil, r)
+  | f + 1, k :: "," :: r => match bytes? k, parseJ f r with
+    | some k, some (v, "," :: r) => match parseJProps f r with
+      | some (ps, r) => some (.cons k v ps, r)
+      | none => none
+    | _, _ => none
+  | _ + 1, _ => none
+end
+
+def js? (s : String) : Option JS :=
+  let ts := lex s
+  match parseJ (ts.length + 1) ts with
+  | some (j, []) => some j
+  | _ => none
+
+/-! ### printers -/
+
+def bytesLt : List Nat → List Nat → Bool
+  | [], [] => false
+  | [], _ :: _ => true
+  | _ :: _, [] => false
+  | a :: as, b :: bs => if a < b then true else if a > b then false else bytesLt as bs
+
+def insertKV (k : List Nat) (v : String) : List (List Nat × String) → List (List Nat × String)
+  | [] => [(k, v)]
+  | (k', v') :: r => if bytesLt k k' then (k, v) :: (k', v') :: r else (k', v') :: insertKV k v r
+
+def joinKVs (l : List (List Nat × String)) : String :=
+  String.join (l.map fun (k, v) => "," ++ bytesOut k ++ "," ++ v)
+
+def gtOut : GT → String
+  | .iface => "I"
+  | .sc false b => btOut b
+  | .sc true b => "N(" ++ btOut b ++ ")"
+  | .slice t => "L(" ++ gtOut t ++ ")"
+  | .map t => "M(" ++ gtOut t ++ ")"
+  | .ptr t => "P(" ++ gtOut t ++ ")"
+  | .strct id => "S(" ++ toString id ++ ")"
+
+def scOut : Sc → String
+  | .bool b => if b then "b:1" else "b:0"
+  | .int k i => nkOut k ++ ":" ++ toString i
+  | .f32 x => "f32:" ++ f64Out x
+  | .f64 x => "f64:" ++ f64Out x
+  | .str s => "s:" ++ bytesOut s
+
+mutual
+def goOut : GoVal → String
+  | .nil => "nil"
+  | .sc false s => scOut s
+  | .sc true s => "N(" ++ scOut s ++ ")"
+  | .ptr g => "P(" ++ goOut g ++ ")"
+  | .nilptr t => "Z(" ++ gtOut t ++ ")"
+  | .slice t n es => "L(" ++ gtOut t ++ "," ++ (if n then "1" else "0") ++ gosOut es ++ ")"
+  | .map t n kvs => "M(" ++ gtOut t ++ "," ++ (if n then "1" else "0") ++ joinKVs (kvsOut kvs) ++ ")"
+  | .strct id fs => "S(" ++ toString id ++ joinKVs (kvsOut fs) ++ ")"
+def gosOut : GoVals → String
+  | .nil => ""
+  | .cons g r => "," ++ goOut g ++ gosOut r
+def kvsOut : GoKVs → List (List Nat × String)
+  | .nil => []
+  | .cons k g r => insertKV k (goOut g) (kvsOut r)
+end
+
+open Spec in
+mutual
+def treeOut : Tree → String
+  | .null => "z"
+  | .bool b => if b then "t" else "f"
+  | .num x => "n:" ++ f64Out x
+  | .str s => "s:" ++ bytesOut s
+  | .arr es => "A(" ++ treesOut es ++ ")"
+  | .obj kvs => "O(" ++ joinKVs (tkvsOut kvs) ++ ")"
+def treesOut : Trees → String
+  | .nil => ""
+  | .cons t r => treeOut t ++ "," ++ treesOut r
+def tkvsOut : TreeKVs → List (List Nat × String)
+  | .nil => []
+  | .cons k t r => insertKV k (treeOut t) (tkvsOut r)
+end
+
+def resOut {α} (f : α → String) : Res α → String
+  | .ok a => f a
+  | .typeError => "throw:TypeError"
+  | .panic => "panic"
+  | .err => "err"
+
+def boolOut (b : Bool) : String := if b then "true" else "false"
+
+def optStrOut : Option (List Nat) → String
+  | some s => "s:" ++ bytesOut s
+  | none => "unmodelled"
+
+def jtokOut : JTok → String
+  | .null => "null"
+  | .bool b => boolOut b
+  | .int i => "i:" ++ toString i
+  | .num x => "n:" ++ f64Out x
+  | .str us => "s:" ++ unitsOut us
+
+def typeofOut : TypeOf → String
+  | .undefined => "undefined" | .object => "object" | .boolean => "boolean"
+  | .number => "number" | .string => "string" | .function => "function"
+
+def viewOut : View → String
+  | .undefined => "undefined" | .null => "null"
+  | .bool b => "b:" ++ (if b then "1" else "0")
+  | .num x => "n:" ++ f64Out x
+  | .str n bs => "s:" ++ toString n ++ ":" ++ bytesOut bs
+  | .object => "object"
+
+def predsOut (p : Preds) : String :=
+  let b (x : Bool) := if x then "1" else "0"
+  b p.isUndefined ++ b p.isDefined ++ b p.isNull ++ b p.isBoolean ++ b p.isNumber ++ b p.isString ++
+    b p.isObject ++ b p.isPrimitive ++ b p.isNaN
+
+/-! ### deviation regions -/
+
+def devList (l : List (Bool × String)) : String :=
+  match (l.filter (·.1)).map (·.2) with
+  | [] => "-"
+  | ds => ",".intercalate ds
+
+open Spec.Dev in
+def devGo (op : String) (g : GoVal) : String :=
+  match op with
+  | "export" => devList [(rejectedPtr g, "pointer_to_container_rejected"), (derefPtr g, "pointer_deref"),
+                         (isNamed g, "named_type_erased"), (isPlainF32 g, "float32_widened")]
+  | "toInteger" => devList [(rejectedPtr g, "pointer_to_container_rejected"), (storesF32 g, "float32_payload_panic"),
+                            (uintInexact g, "toInteger_uint_inexact")]
+  | "toFloat" => devList [(rejectedPtr g, "pointer_to_container_rejected"), (storesF32 g, "float32_payload_panic")]
+  | "toBoolean" => devList [(rejectedPtr g, "pointer_to_container_rejected"), (storesF32NaN g, "float32_payload_nan_truthy")]
+  | "toString" => devList [(rejectedPtr g, "pointer_to_container_rejected")]
+  | "marshal" => devList [(rejectedPtr g, "pointer_to_container_rejected"), (nonFinite g, "marshal_nonfinite"),
+                          (negZero g, "marshal_negzero")]
+  | "view" => devList [(rejectedPtr g, "pointer_to_container_rejected"), (storesF32 g, "float32_payload_panic")]
+  | _ => devList [(rejectedPtr g, "pointer_to_container_rejected")]
+
+def reply (m s dev : String) : String := m ++ " " ++ s ++ " " ++ dev
+
+def goOp (op : String) (g : GoVal) : Option String :=
+  let st := toValue g
+  match op with
+  | "export" => some (reply (resOut goOut (st.bind exportV)) (resOut goOut (Spec.roundtrip g)) (devGo op g))
+  | "toInteger" => some (reply (resOut toString (st.bind (valInteger env))) (resOut toString (Spec.toInteger env g)) (devGo op g))
+  | "toFloat" => some (reply (resOut f64Out (st.bind (valFloat env))) (resOut f64Out (Spec.toFloat env g)) (devGo op g))
+  | "toBoolean" => some (reply (resOut boolOut (st.bind valBool)) (resOut boolOut (Spec.toBoolean g)) (devGo op g))
+  | "toString" => some (reply (resOut optStrOut (st.bind valString)) (resOut optStrOut (Spec.toStringG g)) (devGo op g))
+  | "marshal" => some (reply (resOut jtokOut (st.bind valMarshal)) (resOut jtokOut (Spec.marshal g)) (devGo op g))
+  | "view" =>
+    let m := st.bind fun j => (viewJS env j).map fun v => typeofOut (typeofJS j) ++ "/" ++ viewOut v
+    let s := (Spec.typeofG g).bind fun t => (Spec.view env g).map fun v => typeofOut t ++ "/" ++ viewOut v
+    some (reply (resOut id m) (resOut id s) (devGo op g))
+  | _ => none
+
+open Spec.Dev in
+def jsOp (op : String) (j : JS) : Option String :=
+  match op with
+  | "export" =>      -- structure only
+    some (reply (resOut treeOut ((exportV j).map (Spec.erase env))) (resOut treeOut (Spec.exportTree env j))
+      (devList [(clash j, "export_type_clash_panic"), (hasHole j, "export_array_hole")]))
+  | "exportT" =>     -- with Go types; the documented typing is []interface{} / map[string]interface{}
+    some (reply (resOut goOut (exportV j)) (resOut goOut (Spec.exportDoc j))
+      (devList [(clash j, "export_type_clash_panic"), (hasHole j, "export_array_hole"), (typedArr j, "export_array_typed")]))
+  | "preds" =>
+    some (reply (resOut predsOut (predsJS env j)) (resOut predsOut (Spec.preds env j)) "-")
+  | "typeof" =>
+    some (reply (typeofOut (typeofJS j)) (typeofOut (Spec.typeofJS j)) "-")
+  | _ => none
+
+def handle (ws : List String) : String :=
+  match ws with
+  | ["go", op, a] => match goVal? a with
+    | some g => (goOp op g).getD "bad-op"
+    | none => "bad-op"
+  | ["js", op, a] => match js? a with
+    | some j => (jsOp op j).getD "bad-op"
+    | none => "bad-op"
+  | _ => "bad-op"
 
 end OttoVerif.C15.Driver
